@@ -417,3 +417,13 @@ def default_call_model(nm, args, bi, c):
 def cond_map(path):
     """Conditions of a path as {printed term: cond}."""
     return {term_str_v(t): c for t, c in path.conds}
+
+
+def skip_logging(nm, args, t, path):
+    """Call model: treat `log::…!` level checks as disabled so that logging branches do not
+    multiply paths (logging has no effect on the facts the rules look at)."""
+    mac = t.get('mac', '')
+    if 'log::' in mac or '$crate::log' in mac or '__log' in mac:
+        if nm.endswith('PartialOrd::le') or nm.endswith('::le') or nm.endswith('max_level'):
+            return ('const', 0, 'bool')
+    return None
